@@ -11,7 +11,7 @@ import (
 
 // buildFiber builds a fiber app: recover -> pre -> { /n/ctrl ; group /s with ScopeMiddleware }.
 // fasthttp does not recover handler panics, so fiber's recover middleware is always installed.
-func buildFiber(cs *caseState, sp *spy) *fiber.App {
+func buildFiber(cs *caseState, sp godi.Provider) *fiber.App {
 	o := cs.spec.Opts
 	look := func(c *fiber.Ctx) *reqState { return cs.lookup(c.Get(hdrReq)) }
 
@@ -95,7 +95,12 @@ func buildFiber(cs *caseState, sp *spy) *fiber.App {
 	app.Use(func(c *fiber.Ctx) error {
 		st := look(c)
 		st.onPre()
-		c.SetUserContext(context.WithValue(c.UserContext(), reqCtxKey{}, st))
+		base := c.UserContext()
+		if app := cs.appScope; app != nil {
+			// application-scope workload: the request's UserContext derives from a long-lived scope
+			base = app.Context()
+		}
+		c.SetUserContext(context.WithValue(base, reqCtxKey{}, st))
 		defer func() {
 			v := recover()
 			st.onUnwind(v)
